@@ -58,6 +58,7 @@ def _plain(e, bodies, pv):
 
 def _run_impl(npro, bodies, ops):
     from pdpy11 import deferred as D
+    from . import internals
     P = [D.Promise[int]("q%d" % i) for i in range(npro)]
     T = []
 
@@ -79,7 +80,7 @@ def _run_impl(npro, bodies, ops):
         res = None
         with D.try_compute:
             res = ev(op[1])
-        mem = " ".join(("v%d" % t.value) if t.settled else ("n" if t.not_ready_epoch == D.Readiness.epoch else "-") for t in T)
+        mem = " ".join(("v%d" % m[1]) if m[0] == "v" else m[0] for m in (internals.thunk_memory(D, t) for t in T))
         out.append(("not-ready" if res is None else "value %d" % res) + " [" + mem + "]")
         answers.append(res)
     return " | ".join(out), answers
@@ -87,7 +88,13 @@ def _run_impl(npro, bodies, ops):
 
 def thunk_stream(ctx, rng, n):
     from pdpy11 import deferred as D
-    depth0 = D.try_compute.depth
+    from . import internals
+    try:
+        depth0 = internals.try_depth(D)
+        internals.awaiting_stack(D)
+    except internals.TieBroken as tb:
+        ctx.disagree("tie to deferred.py internals", {"missing": str(tb)}, "try_compute.depth / Awaiting.awaiting_stack", "not found")
+        return
     reqs, jobs = [], []
     for _ in range(n):
         npro, bodies, ops = _gen(rng)
@@ -98,10 +105,13 @@ def thunk_stream(ctx, rng, n):
         ctx.count("thunk-scripts")
         try:
             got, answers = _run_impl(npro, bodies, ops)
+        except internals.TieBroken as tb:
+            ctx.disagree("tie to deferred.py internals (the two memories of a thunk)", {"missing": str(tb)}, "settled / value / not_ready_epoch", "not found")
+            return
         except Exception as e:  # noqa: BLE001
             ctx.violation("Deferred / Promise raised on a legal script of waits and settlements", inp, expected="answers", observed=repr(e)[:300])
-            D.try_compute.depth = depth0
-            del D.Awaiting.awaiting_stack[:]
+            internals.set_try_depth(D, depth0)
+            del internals.awaiting_stack(D)[:]
             continue
         # the engine without memory, on the promises as they are at each wait
         pv, ai = {}, 0
